@@ -765,16 +765,21 @@ def run_build_case(spec: dict) -> dict:
     row_watch.samples = [(k, t, steps) for k, t, steps, _, _ in watch.samples]
     reset = row_watch.windows_not_running(res.runs)
     twice = simcases.jobs_in_flight_twice(res.jobs)
-    if reset or twice:
+    odd = simcases.job_state_anomalies(row_watch.samples, res.jobs)
+    if reset or twice or odd:
         count("builds-with-row-reset-under-running-command")
         if reset:
             r0 = reset[0]
             text = (f"the command of step '{r0['step']}' (job {r0['job']}) was running (logical time {r0['window']}) "
                     f"while its step row was in state {r0['state']} at commit {r0['commit']}")
-        else:
+        elif twice:
             r0 = twice[0]
             text = (f"step '{r0['step']}' had two jobs in flight at once (jobs {r0['jobs']}, kinds {r0['kinds']}, "
                     f"logical times {r0['windows']})")
+        else:
+            r0 = odd[0]
+            text = (f"the row of step '{r0['step']}' went through the states {r0['states']} while its {r0['kind']} "
+                    f"job {r0['job']} was in flight (logical time {r0['window']})")
         finding("running-step-row-reset",
                 f"{text}: its re-running creator redefined the step while a job of it was in flight; the build ended "
                 f"with status {res.status}", resets=reset[:3], twice=twice[:3], external=ext,
